@@ -107,9 +107,12 @@ func vfC03Case(s string, mode int) string {
 	return s
 }
 
-func vfC03GenReq(rt *rapid.T, thorough bool, avoidReserved bool) vfC03Req {
+func vfC03GenReq(rt *rapid.T, thorough bool, avoidReserved bool, prefMethods []string) vfC03Req {
 	q := vfC03Req{}
 	q.Method = rapid.SampledFrom([]string{"GET", "POST", "PUT", "DELETE", "PATCH", "OPTIONS", "HEAD", "POST", "GET"}).Draw(rt, "method")
+	if len(prefMethods) > 0 && rapid.IntRange(0, 2).Draw(rt, "cacheable-method") > 0 {
+		q.Method = rapid.SampledFrom(prefMethods).Draw(rt, "method-from-cache-spec")
+	}
 	pool := vfC03Segs
 	if avoidReserved {
 		pool = vfC03SegsSafe
@@ -226,7 +229,14 @@ func vfC03GenReq(rt *rapid.T, thorough bool, avoidReserved bool) vfC03Req {
 	return q
 }
 
-func vfC03GenResp(rt *rapid.T, thorough bool) vfC03Resp {
+func vfC03GenResp(rt *rapid.T, thorough bool, prefCodes []int) vfC03Resp {
+	if len(prefCodes) > 0 && rapid.IntRange(0, 2).Draw(rt, "cacheable-status") > 0 {
+		return vfC03GenRespFor(rt, thorough, rapid.SampledFrom(prefCodes).Draw(rt, "status-from-cache-spec"))
+	}
+	return vfC03GenRespFor(rt, thorough, 0)
+}
+
+func vfC03GenRespFor(rt *rapid.T, thorough bool, status int) vfC03Resp {
 	p := vfC03Resp{}
 	switch rapid.IntRange(0, 5).Draw(rt, "statuskind") {
 	case 0, 1, 2:
@@ -235,6 +245,9 @@ func vfC03GenResp(rt *rapid.T, thorough bool) vfC03Resp {
 		p.Status = rapid.SampledFrom([]int{201, 202, 204, 206, 299, 301, 302, 304, 307, 400, 401, 403, 404, 409, 418, 429, 500, 502, 503, 504}).Draw(rt, "status")
 	default:
 		p.Status = rapid.IntRange(200, 599).Draw(rt, "anystatus")
+	}
+	if status != 0 {
+		p.Status = status
 	}
 	keys := []string{"X-Vf-R-A", "X-Vf-R-B", "Set-Cookie", "Content-Type", "Cache-Control", "Etag", "Content-Language", "X-Powered-By", "Vary", "Www-Authenticate"}
 	vals := []string{"1", "a=b; Path=/", "c=d; HttpOnly", "text/plain; charset=utf-8", "application/json", "no-store", "W/\"abc\"", "en", "vf", "Origin", "Basic realm=\"r\"", "a, b", ""}
@@ -297,6 +310,18 @@ func vfC03GenCfg(rt *rapid.T, thorough bool) *vfxCfg {
 			c.Pools[0].ServerMax = -1
 		} else {
 			c.ProxyServerMax = -1
+		}
+	}
+	// caches must be transparent: the route cache of the server, the memoryCache of the pool
+	c.CacheSize = rapid.SampledFrom([]uint32{0, 0, 3, 1000}).Draw(rt, "route-cacheSize")
+	if rapid.IntRange(0, 2).Draw(rt, "memoryCache") == 0 {
+		c.MemCache = &vfxMemCache{Expiration: "1h",
+			MaxEntryBytes: rapid.SampledFrom([]int{100, 5000, 1 << 20, 1 << 20}).Draw(rt, "maxEntryBytes"),
+			Codes:         rapid.SampledFrom([][]int{{200}, {200, 404}, {200, 301, 404, 500}}).Draw(rt, "cache-codes"),
+			Methods:       rapid.SampledFrom([][]string{{"GET"}, {"GET", "HEAD"}, {"GET", "POST"}}).Draw(rt, "cache-methods")}
+		// a streamed response is never stored: keep most cache configurations buffered
+		if vfC03RespStream(c) && rapid.IntRange(0, 3).Draw(rt, "memoryCache-keeps-stream") != 0 {
+			c.Pools[0].ServerMax, c.ProxyServerMax = 0, 0
 		}
 	}
 	if thorough && rapid.IntRange(0, 7).Draw(rt, "pool-timeout") == 0 {
@@ -662,8 +687,28 @@ func TestVerifC03Forward(t *testing.T) {
 				}
 				return rapid.IntRange(0, 7).Draw(rt, "keep-known-trigger") != 0
 			}
-			q := vfC03GenReq(rt, thorough, steer(vfC03KeyPath))
-			p := vfC03GenResp(rt, thorough)
+			var prefMethods []string
+			var prefCodes []int
+			if cfg.MemCache != nil {
+				prefMethods, prefCodes = cfg.MemCache.Methods, cfg.MemCache.Codes
+			}
+			q := vfC03GenReq(rt, thorough, steer(vfC03KeyPath), prefMethods)
+			p := vfC03GenResp(rt, thorough, prefCodes)
+			if cfg.MemCache != nil {
+				// the memoryCache is keyed by scheme+host+path+method: give every generated request of
+				// the case its own key, so that a hit can only come from a repetition of the same request
+				q.RawPath = fmt.Sprintf("/i%d", i) + q.RawPath
+			}
+			cacheable := false
+			if cfg.MemCache != nil {
+				for _, m := range cfg.MemCache.Methods {
+					cacheable = cacheable || m == q.Method
+				}
+			}
+			reps := rapid.SampledFrom([]int{1, 1, 2}).Draw(rt, "repetitions")
+			if cacheable {
+				reps = rapid.IntRange(2, 4).Draw(rt, "cacheable-repetitions")
+			}
 			// bodies above the 4 MiB default limit only where that direction streams
 			if q.BodyN > vfC03Default && !vfC03ReqStream(cfg) {
 				q.BodyN = 70 * 1024
@@ -682,104 +727,117 @@ func TestVerifC03Forward(t *testing.T) {
 				vf.Exclude()
 			}
 			wire := q.toWire()
-			resp, seen, frontLog, transient, err := rig.exchange(wire, p.toScript())
-			if err != nil {
-				if err == errVfxTimeout {
-					rt.Fatalf("VF-INCONCLUSIVE no complete response within %v for %s", vfxIOTimeout, wire)
+			for rep := 0; rep < reps; rep++ {
+				resp, seen, frontLog, transient, err := rig.exchange(wire, p.toScript())
+				if err != nil {
+					if err == errVfxTimeout {
+						rt.Fatalf("VF-INCONCLUSIVE no complete response within %v for %s", vfxIOTimeout, wire)
+					}
+					rt.Fatalf("VF-INCONCLUSIVE client I/O problem: %v", err)
 				}
-				rt.Fatalf("VF-INCONCLUSIVE client I/O problem: %v", err)
-			}
-			if transient {
-				vf.Class("transient-503-without-backend-contact-retried")
-			}
+				if transient {
+					vf.Class("transient-503-without-backend-contact-retried")
+				}
 
-			// classes
-			reserved := vfC03ReservedEsc.MatchString(q.RawPath)
-			escaped := strings.Contains(q.RawPath, "%")
-			listedPresent := false
-			sentKeys, _ := vfC03HeaderMap(append(append([][2]string{}, q.E2E...), q.Hop...))
-			for _, l := range q.Listed {
-				if _, ok := sentKeys[l]; ok && l != "Connection" {
-					listedPresent = true
+				// classes
+				reserved := vfC03ReservedEsc.MatchString(q.RawPath)
+				escaped := strings.Contains(q.RawPath, "%")
+				listedPresent := false
+				sentKeys, _ := vfC03HeaderMap(append(append([][2]string{}, q.E2E...), q.Hop...))
+				for _, l := range q.Listed {
+					if _, ok := sentKeys[l]; ok && l != "Connection" {
+						listedPresent = true
+					}
 				}
-			}
-			recode := cfg.ReqAdaptor != "" || cfg.RespAdaptor != "" || (cfg.Compression >= 0 && vfC03AcceptGzipPerDocs(&q)) || vfC03TransportDecoded(&q, &p)
-			stream := vfC03ReqStream(cfg) || vfC03RespStream(cfg)
-			hasBody := q.BodyN > 0 || (p.BodyN > 0 && q.Method != "HEAD")
-			nontrivial := hasBody && (listedPresent || recode || escaped || stream)
-			vf.Class("method="+q.Method, fmt.Sprintf("client-status=%dxx", resp.Status/100), "resp-framing="+resp.Framing,
-				"backend-framing="+p.Framing, "req-framing="+q.Framing)
-			for n, on := range map[string]bool{"path-escaped": escaped, "path-escaped-reserved": reserved, "connection-lists-present-header": listedPresent,
-				"recode-step": recode, "req-stream": vfC03ReqStream(cfg), "resp-stream": vfC03RespStream(cfg), "req-body": q.BodyN > 0, "resp-body": p.BodyN > 0,
-				"req-gzip-labelled": q.Gzip, "resp-gzip-labelled": p.Gzip, "server-by-hostname": cfg.ByHostName, "keepHost": cfg.KeepHost,
-				"compression-configured": cfg.Compression >= 0, "reqadaptor=" + cfg.ReqAdaptor: cfg.ReqAdaptor != "", "respadaptor=" + cfg.RespAdaptor: cfg.RespAdaptor != "",
-				"body>=70KiB": q.BodyN >= 70*1024 || p.BodyN >= 70*1024, "hop-header-sent": len(q.Hop) > 0, "conn-reused": rig.lastReused, "query": q.Query != "", "pool-timeout": cfg.PoolTimeout != ""} {
-				if on {
-					vf.Class(n)
+				recode := cfg.ReqAdaptor != "" || cfg.RespAdaptor != "" || (cfg.Compression >= 0 && vfC03AcceptGzipPerDocs(&q)) || vfC03TransportDecoded(&q, &p)
+				stream := vfC03ReqStream(cfg) || vfC03RespStream(cfg)
+				hasBody := q.BodyN > 0 || (p.BodyN > 0 && q.Method != "HEAD")
+				nontrivial := hasBody && (listedPresent || recode || escaped || stream)
+				vf.Class("method="+q.Method, fmt.Sprintf("client-status=%dxx", resp.Status/100), "resp-framing="+resp.Framing,
+					"backend-framing="+p.Framing, "req-framing="+q.Framing)
+				for n, on := range map[string]bool{"path-escaped": escaped, "path-escaped-reserved": reserved, "connection-lists-present-header": listedPresent,
+					"recode-step": recode, "req-stream": vfC03ReqStream(cfg), "resp-stream": vfC03RespStream(cfg), "req-body": q.BodyN > 0, "resp-body": p.BodyN > 0,
+					"req-gzip-labelled": q.Gzip, "resp-gzip-labelled": p.Gzip, "server-by-hostname": cfg.ByHostName, "keepHost": cfg.KeepHost,
+					"compression-configured": cfg.Compression >= 0, "reqadaptor=" + cfg.ReqAdaptor: cfg.ReqAdaptor != "", "respadaptor=" + cfg.RespAdaptor: cfg.RespAdaptor != "",
+					"body>=70KiB": q.BodyN >= 70*1024 || p.BodyN >= 70*1024, "hop-header-sent": len(q.Hop) > 0, "conn-reused": rig.lastReused, "query": q.Query != "", "pool-timeout": cfg.PoolTimeout != "",
+					"route-cache-on": cfg.CacheSize > 0, "repeated-request": rep > 0, "repeated-request-route-cache-on": rep > 0 && cfg.CacheSize > 0,
+					"memoryCache": cfg.MemCache != nil, "memoryCache-repeated-cacheable-request": cacheable && rep > 0,
+					"memoryCache-hit(backend-not-contacted)":         cacheable && rep > 0 && len(seen) == 0,
+					"memoryCache-3rd+-repetition-behind-respadaptor": cacheable && rep >= 2 && cfg.RespAdaptor != ""} {
+					if on {
+						vf.Class(n)
+					}
 				}
-			}
-			desc := fmt.Sprintf("cfg{%s}\nrequest{%s}\nbackend-script{status=%d hdr=%q hop=%q body=%d/%d gzip=%v framing=%s}", strings.ReplaceAll(rig.pipeYAML+rig.srvYAML, "\n", "; "), wire, p.Status, p.E2E, p.Hop, p.BodyN, p.BodySeed, p.Gzip, p.Framing)
-			// distinct-case key: ports vary between runs, keep them out
-			dk := fmt.Sprintf("%+v|%+v|%+v", *cfg, q, p)
-			vf.Case(nontrivial, dk, func() interface{} {
-				var s string
-				if len(seen) > 0 {
-					s = seen[len(seen)-1].String()
+				desc := fmt.Sprintf("repetition %d of %d\ncfg{%s}\nrequest{%s}\nbackend-script{status=%d hdr=%q hop=%q body=%d/%d gzip=%v framing=%s}", rep+1, reps, strings.ReplaceAll(rig.pipeYAML+rig.srvYAML, "\n", "; "), wire, p.Status, p.E2E, p.Hop, p.BodyN, p.BodySeed, p.Gzip, p.Framing)
+				// distinct-case key: ports vary between runs, keep them out
+				mc := ""
+				if cfg.MemCache != nil {
+					mc = fmt.Sprintf("%+v", *cfg.MemCache)
 				}
-				return map[string]interface{}{"case": desc, "backend_received": s, "client_received": resp.String()}
-			})
+				dk := fmt.Sprintf("%+v|%s|%+v|%+v|%d", *cfg, mc, q, p, rep)
+				vf.Case(nontrivial, dk, func() interface{} {
+					var s string
+					if len(seen) > 0 {
+						s = seen[len(seen)-1].String()
+					}
+					return map[string]interface{}{"case": desc, "backend_received": s, "client_received": resp.String()}
+				})
 
-			fail := func(v *vfC03Verdict) bool {
-				key := v.Symptom
-				respSide := strings.HasPrefix(v.Symptom, "resp-") || v.Symptom == "req-not-forwarded"
-				switch {
-				case v.Symptom == "harness":
-					rt.Fatalf("VF-INCONCLUSIVE %s", v.Text)
-				case vfxPanicSite(frontLog) != "":
-					key = "handler-panic " + vfxPanicSite(frontLog)
-				case reserved && (v.Symptom == "req-path" || v.Symptom == "req-query" || v.Symptom == "req-not-forwarded"):
-					key = vfC03KeyPath
-				case v.Symptom == "req-not-forwarded":
-				case respSide && cfg.PoolTimeout != "" && vfC03RespStream(cfg) && v.Symptom != "resp-status" && v.Symptom != "resp-header":
-					key = vfC03KeyTimeoutStream
-				case respSide && vfC03HeadTrigger(cfg, &q, &p) && resp.Status == 500:
-					key = vfC03KeyHead
-				case respSide && vfC03CompressTrigger(cfg, &q, &p):
-					key = vfC03KeyCompress
-				case respSide && vfC03RABodyTrigger(cfg, &q, &p) && v.Symptom != "resp-status" && v.Symptom != "resp-header":
-					key = vfC03KeyRABody
+				fail := func(v *vfC03Verdict) bool {
+					key := v.Symptom
+					respSide := strings.HasPrefix(v.Symptom, "resp-") || v.Symptom == "req-not-forwarded"
+					switch {
+					case v.Symptom == "harness":
+						rt.Fatalf("VF-INCONCLUSIVE %s", v.Text)
+					case vfxPanicSite(frontLog) != "":
+						key = "handler-panic " + vfxPanicSite(frontLog)
+					case reserved && (v.Symptom == "req-path" || v.Symptom == "req-query" || v.Symptom == "req-not-forwarded"):
+						key = vfC03KeyPath
+					case v.Symptom == "req-not-forwarded":
+					case respSide && cfg.PoolTimeout != "" && vfC03RespStream(cfg) && v.Symptom != "resp-status" && v.Symptom != "resp-header":
+						key = vfC03KeyTimeoutStream
+					case respSide && vfC03HeadTrigger(cfg, &q, &p) && resp.Status == 500:
+						key = vfC03KeyHead
+					case respSide && vfC03CompressTrigger(cfg, &q, &p):
+						key = vfC03KeyCompress
+					case respSide && vfC03RABodyTrigger(cfg, &q, &p) && v.Symptom != "resp-status" && v.Symptom != "resp-header":
+						key = vfC03KeyRABody
+					}
+					if len(frontLog) > 3000 {
+						frontLog = frontLog[:3000] + "…"
+					}
+					return vf.Violation(rt, key, "%s\n%s\nbackend received: %v\nclient received: %s\nfront server log: %s", v.Text, desc, seen, resp, frontLog)
 				}
-				if len(frontLog) > 3000 {
-					frontLog = frontLog[:3000] + "…"
-				}
-				return vf.Violation(rt, key, "%s\n%s\nbackend received: %v\nclient received: %s\nfront server log: %s", v.Text, desc, seen, resp, frontLog)
-			}
 
-			// 1. framing of whatever was written to the socket
-			if v := vfC03CheckFraming(resp); v != nil {
-				if fail(v) {
-					rig.dropConn()
-					continue
+				// 1. framing of whatever was written to the socket
+				if v := vfC03CheckFraming(resp); v != nil {
+					if fail(v) {
+						rig.dropConn()
+						continue
+					}
 				}
-			}
-			// 2. request direction (a request that never reached the backend is judged there too)
-			if v := vfC03CheckRequest(cfg, &q, rig, seen, resp); v != nil {
-				if fail(v) {
-					rig.dropConn()
-					continue
+				// 2. request direction (a request that never reached the backend is judged there too);
+				// a repetition of a cacheable request may legitimately be answered by the memoryCache
+				if cacheable && rep > 0 && len(seen) == 0 {
+					// nothing to compare
+				} else if v := vfC03CheckRequest(cfg, &q, rig, seen, resp); v != nil {
+					if fail(v) {
+						rig.dropConn()
+						continue
+					}
 				}
-			}
-			// 3. response direction
-			var amb []string
-			if v := vfC03CheckResponse(cfg, &q, &p, resp, &amb); v != nil {
-				if fail(v) {
-					rig.dropConn()
-					continue
+				// 3. response direction
+				var amb []string
+				if v := vfC03CheckResponse(cfg, &q, &p, resp, &amb); v != nil {
+					if fail(v) {
+						rig.dropConn()
+						continue
+					}
 				}
-			}
-			vf.Class(amb...)
-			if len(p.Hop) > 0 {
-				vf.Class("ambiguous-backend-hop-header-not-judged")
+				vf.Class(amb...)
+				if len(p.Hop) > 0 {
+					vf.Class("ambiguous-backend-hop-header-not-judged")
+				}
 			}
 		}
 	})
